@@ -5,6 +5,8 @@ import numpy as np
 from vlib import zlit, zlist, blit, listlit, optlit
 
 PROP = 'C05'
+UNEQUAL = 'epochs of different lengths complete at the same send'
+KNOWN_KEY = 'unequal-durations-complete-in-one-send'
 REQUIRES = ['Extract.Model', 'Extract.Spec']
 RULE = ('drives the real extract_epochs coroutine send by send. (1) one request: every start lo in [-1, total] x length n in '
         '{0,1,2,4,5,9} x arrival call x look-back B in {0,3,4,9} over fixed chunkings (equal, ragged with empty and 1-sample chunks); '
@@ -23,8 +25,9 @@ TRUSTED = ['harness/C05.py (schedule generators; computing lo = round((t0 - pres
 ASSUMPTIONS = ['PipelineData chunks carry s0 = number of samples sent before them (a continuous stream from sample 0); the extractor '
                'itself indexes by its own sample counter tlb, not by the chunk s0, while the delivered epoch s0 comes from the chunk s0',
                'buffer_size >= 0; n >= 0; all chunks of a stream carry the same metadata',
-               'theorem preconditions: distinct (t0,key) per schedule (duplicates raise ValueError by design), one epoch length per '
-               'schedule (epochs of one call are stacked into one array), each request visible within the look-back '
+               'theorem preconditions: distinct (t0,key) per schedule (duplicates raise ValueError by design), epochs that become '
+               'complete at the same send equally long (they are stacked into one array; always true with epoch_size given; '
+               'violated inputs are the known finding ' + KNOWN_KEY + '), each request visible within the look-back '
                '(lo >= start of the oldest buffered chunk at its arrival call; implied by lo >= max(0, samples_before_call - B)), '
                'no removal notice processed in an earlier call than its request',
                'auto_send=True (marked "not tested" in the source) is out of scope']
@@ -213,8 +216,6 @@ def _analyse(case, res):
         ends.append(T)
         while kept and kept[0][0] + kept[0][1] < T - B:
             kept.pop(0)
-    if len({r['n'] for r in reqs}) > 1:
-        pre_ok, why = False, 'unequal epoch lengths'
     for j, e in enumerate(eff):
         for k in e['rems']:
             if k in arrival and arrival[k] > j:
@@ -225,6 +226,14 @@ def _analyse(case, res):
         r['d'] = d
         r['removed'] = any(d is None or j <= d for j in rem)
         r['first_rem'] = min(rem) if rem else None
+    # epochs that become complete at the same send are stacked into one array: they must be equally long
+    # (Spec.lengths_ok).  Recorded separately: see KNOWN_KEY.
+    bysend = {}
+    for r in reqs:
+        if r['d'] is not None and not r['removed']:
+            bysend.setdefault(r['d'], set()).add(r['n'])
+    if pre_ok and any(len(v) > 1 for v in bysend.values()):
+        pre_ok, why = False, UNEQUAL
     return pre_ok, why, reqs, ends
 
 
@@ -232,6 +241,14 @@ def oracle(case, res):
     if res['notes']:
         return '; '.join(res['notes'])
     pre_ok, why, reqs, ends = _analyse(case, res)
+    if why == UNEQUAL:
+        # all other preconditions hold; the extractor raises instead of delivering (known finding)
+        f = next((i for i, o in enumerate(res['obs']) if o[0] == 'E'), None)
+        if f is None:
+            return None
+        lens = sorted({r['n'] for r in reqs if r['d'] == f and not r['removed']})
+        return (f'send #{f} raised: epochs of different lengths {lens} (per-request duration) become complete with the same '
+                f'chunk and cannot be stacked; nothing is delivered and the extractor is dead afterwards')
     if not pre_ok:
         return None      # outside the property's preconditions: compared with the model only
     stream = [_val(case, i) for i in range(ends[-1] if ends else 0)]
@@ -336,7 +353,11 @@ def nontrivial(case, res):
 
 
 def key(case, res):
-    return None
+    try:
+        pre_ok, why, reqs, ends = _analyse(case, res)
+    except Exception:
+        return None
+    return KNOWN_KEY if why == UNEQUAL else None
 
 
 def distribution(cases, results):
@@ -516,3 +537,9 @@ def cases(tier, rng):
     yield from _single(tier)
     yield from _pairs(tier, rng)
     yield from _random(tier, rng)
+
+
+# replayed on every run while the finding is listed in known_findings.txt
+KNOWN_WITNESSES = {
+    KNOWN_KEY: _case('N1', 1000.0, 0, _feeds([10], {0: [[1, None, 3], [2, None, 4]]})),
+}
